@@ -196,11 +196,15 @@ func (pit *pebbleIterator) Seek(id []byte) error {
 // Seek moves the iterator to a new location
 func (pit *pebbleIterator) SeekReverse(id []byte) error {
 	pit.forward = false
-	if !pit.iter.SeekGE(id) {
+	if pit.iter.SeekGE(id) {
+		if bytes.Compare(id, pit.iter.Key()) < 0 {
+			if !pit.iter.Prev() {
+				return io.EOF
+			}
+		}
+	} else if !pit.iter.Last() {
+		//SeekGE fails when every key is below id: the last key is the closest one
 		return io.EOF
-	}
-	if bytes.Compare(id, pit.iter.Key()) < 0 {
-		pit.iter.Prev()
 	}
 	pit.key = copyBytes(pit.iter.Key())
 	pit.value = copyBytes(pit.iter.Value())
